@@ -3,10 +3,9 @@ package parser
 import (
 	"os"
 	s "strings"
-	"unsafe"
+	"sync"
 
 	"github.com/antlr/antlr4/runtime/Go/antlr"
-	"github.com/cornelk/hashmap"
 	"github.com/sirupsen/logrus"
 )
 
@@ -29,8 +28,9 @@ var (
 	}
 
 	// Antlr doesn't support reentrant Go lexer state, so we work around it with
-	// a fast lock-free hash map.
-	lexerStates = &hashmap.HashMap{}
+	// a concurrent map from lexer to its state. (The lock-free hashmap used before
+	// grew without bound when lexers were created and deleted from several goroutines.)
+	lexerStates sync.Map
 )
 
 const importKeyword = "import"
@@ -51,18 +51,16 @@ type lexerState struct {
 }
 
 func ls(l *SyslLexer) *lexerState {
-	key := uintptr(unsafe.Pointer(l))
-	if state, has := lexerStates.Get(key); has {
+	if state, has := lexerStates.Load(l); has {
 		return state.(*lexerState)
 	}
 	state := &lexerState{}
-	lexerStates.Set(key, state)
+	lexerStates.Store(l, state)
 	return state
 }
 
 func DeleteLexerState(l *SyslLexer) {
-	key := uintptr(unsafe.Pointer(l))
-	lexerStates.Del(key)
+	lexerStates.Delete(l)
 }
 
 func calcSpaces(text string) int {
